@@ -31,7 +31,7 @@ class Prop(PropBase):
     ID = "C12"
     LEAN_MODULES = ["Tpp.Props.C12"]
     REQUIRED = ["Tpp.Props.C12." + n for n in ("C12_interleave", "C12_terminals", "no_mutable_statics")]
-    RULE = ("sets of 2-8 per-object scripts (terminals with different behaviours, screens, input decoders fed key sequences "
+    RULE = ("twin sets (the same operation sequence on 2-4 objects that differ only in configuration, or not at all) and sets of 2-8 per-object scripts (terminals with different behaviours, screens, input decoders fed key sequences "
             "split across deliveries, markup/string/value one-shot "
             "cases) are executed with all objects alive at once: round-robin, several seeded random interleavings on one "
             "thread (ASan+UBSan build) and concurrently with one thread per object (ThreadSanitizer build); every "
@@ -70,6 +70,25 @@ class Prop(PropBase):
                 else:
                     lines.append("H %d %d %d" % (r.randrange(6), r.randrange(6), r.randrange(6)))
             sets.append(lines)
+        # twin sets: the SAME operation sequence on 2-4 distinct objects that differ only in their configuration (or not
+        # at all), so that identical calls with identical arguments alternate between objects - what a cache or scratch
+        # buffer keyed on the arguments but not on the object/configuration would confuse
+        for _ in range(n // 2 + 3):
+            k = r.choice([2, 2, 3, 4])
+            c = r.random()
+            if c < 0.7:
+                body = tg.history(r, r.choice([3, 6, 12, 30]), behbits=0, ops_weights={"we": 40, "ws": 10, "mv": 15, "er": 6, "sv": 3, "rs": 3,
+                                                                                         "hc": 2, "sc": 2, "me": 3, "md": 2, "ti": 3, "sz": 3, "dup": 4})
+                rest = body.split(" ; ", 1)[1] if " ; " in body else ""
+                bits = r.sample([0, 16, 1, 2, 4, 8, 5, 26, 31, 0], k)
+                sets.append(["T %d ; %s" % (b, rest) for b in bits])
+            elif c < 0.85:
+                body = sg.frames(r, r.choice([1, 2, 4]))
+                rest = body.split(" ; ", 1)[1]
+                sets.append(["S %d ; %s" % (b, rest) for b in r.sample([0, 16, 0, 16], k)])
+            else:
+                line = input_script(r)
+                sets.append([line] * k)
         return sets
 
     @staticmethod
